@@ -413,6 +413,32 @@ impl EncodingBuilder {
     }
 }
 
+/// verif hook: run the private paging and index construction with an arbitrary page size in
+/// bytes (compiled only under `cfg(kani)`)
+#[cfg(kani)]
+impl EncodingBuilder {
+    /// `build_ckey_pages(page_size)` followed by `build_index`.
+    #[allow(clippy::type_complexity)]
+    pub fn verif_build_ckey(
+        &self,
+        page_size: usize,
+    ) -> Result<(Vec<IndexEntry>, Vec<Page<CKeyPageEntry>>), EncodingError> {
+        let pages = self.build_ckey_pages(page_size)?;
+        Ok((Self::build_index(&pages), pages))
+    }
+
+    /// `build_ekey_pages(page_size, espec_table)` followed by `build_index`.
+    #[allow(clippy::type_complexity)]
+    pub fn verif_build_ekey(
+        &self,
+        page_size: usize,
+        espec_table: &ESpecTable,
+    ) -> Result<(Vec<IndexEntry>, Vec<Page<EKeyPageEntry>>), EncodingError> {
+        let pages = self.build_ekey_pages(page_size, espec_table)?;
+        Ok((Self::build_index(&pages), pages))
+    }
+}
+
 impl Default for EncodingBuilder {
     fn default() -> Self {
         Self::new()
